@@ -1,4 +1,5 @@
 import Clover.Model.Criteria
+import Clover.Proofs.KindInvariance
 /-! # C16 — criteria obey Boolean algebra and literal normalisation -/
 namespace CV.Props.C16
 open CV
@@ -64,5 +65,20 @@ theorem absent_ref_is_nil (d : Doc) (n : Bytes) (h : d.has n = false) : deref d 
 theorem absent_fails_eq (d : Doc) (f : Bytes) (x : Operand) (h : d.has f = false) :
     sat likeFn fnFam d (.cmp .eq f x) = false := by
   simp [sat, satCmp, h]
+
+end CV.Props.C16
+
+namespace CV.Props.C16
+open CV
+
+variable (likeFn : LikeFn) (fnFam : FnFam)
+
+/-- **A literal yields the same result whatever Go numeric kind it was supplied as**: two criteria
+    trees that differ only in the kind (int64 / uint64 / float64) of numerically equal literal
+    operands — in comparisons, `In` and `Contains` lists, under any And/Or/Not — are satisfied by
+    exactly the same documents (numbers within the exact domain). -/
+theorem literal_kind_invariance (d : Doc) (hd : NumsOK (.obj d)) (c c' : Crit)
+    (h : Crit.SameUpToKinds c c') (hc : c.LitsOK) (hc' : c'.LitsOK) :
+    sat likeFn fnFam d c = sat likeFn fnFam d c' := sat_sameUpToKinds likeFn fnFam d hd h hc hc'
 
 end CV.Props.C16
